@@ -134,6 +134,7 @@ fn setup<M: ZooMsg + ?Sized>(dec: &mut Decider, stats: &mut Stats) -> Result<Set
     let p = dec.weighted(St::Cfg, &[3, 2, 1]);
     let mut plan = make_plan_opt::<M>(dec, stats, NSpec::Exactly(p as u32 + 2), 2, false);
     plan.retain_p = 0;
+    plan.msgs.retain(|m| !m.unvalidated);
     let plan = Arc::new(plan);
     if let Some((val, _)) = plan.anomalies.first() {
         // A freshly emplaced value did not validate in the buffer it was emplaced into.  If its
